@@ -286,6 +286,10 @@ package cbreaker
 //@   holds CircuitBreaker.m
 //@   requires c != nil && c.metrics != nil
 //@   modifies external
+//@   ensures quantile_of_the_window: calls(LatencyHistogram) == 1 && callarg(LatencyHistogram, 0, 0) == c.metrics
+//@   ensures quantile_asked_of_that_histogram: callres(LatencyHistogram, 0, 1) == nil ==> calls(LatencyAtQuantile) == 1 && callarg(LatencyAtQuantile, 0, 0) == callres(LatencyHistogram, 0, 0) && callarg(LatencyAtQuantile, 0, 1) == quantile
+//@   ensures in_whole_milliseconds_truncated: callres(LatencyHistogram, 0, 1) == nil && callres(LatencyAtQuantile, 0, 0) >= 0 ==> result == callres(LatencyAtQuantile, 0, 0) / 1000000
+//@   ensures no_histogram_no_latency: callres(LatencyHistogram, 0, 1) != nil ==> result == 0 && calls(LatencyAtQuantile) == 0
 //@ func networkErrorRatio$1
 //@   props C09 C18
 //@   holds CircuitBreaker.m
